@@ -62,7 +62,9 @@ pub fn execute(ctx: &mut Ctx, lines: &[String]) -> Vec<(Vec<String>, Vec<String>
             let ans = flw::execute(ctx, lines);
             // `BGTRACE` is rewritten into what was observed of the cleanup thread (`BGOBS …`)
             let obs = flw::BGOBS_LINE.lock().unwrap().take();
-            let eff: Vec<String> = lines.iter().map(|l| if l == "BGTRACE" { obs.clone().unwrap_or_else(|| "NOTE bgtrace-not-applicable".into()) } else { l.clone() }).collect();
+            // `KW` (kill at an arbitrary instant) is rewritten into what was found afterwards (`KOBS …`)
+            let kobs = flw::KOBS_LINE.lock().unwrap().take();
+            let eff: Vec<String> = lines.iter().map(|l| if l == "BGTRACE" { obs.clone().unwrap_or_else(|| "NOTE bgtrace-not-applicable".into()) } else if l.starts_with("KW ") { kobs.clone().unwrap_or_else(|| l.clone()) } else { l.clone() }).collect();
             vec![(eff, ans)]
         }
         "conc" => conc::execute(ctx, lines),
